@@ -166,7 +166,7 @@ PROPS = {
     ),
     "C10": dict(
         module="SeliumModel.Props.C10",
-        suites=["reqrep"],
+        suites=["reqrep", "registry"],
         level="proof",
         rule="reqrep: the real reqrep::Topic (and through it sink::Router) in a guarded child process (a poll that never returns is observed as a hang) under the wake-driven executor, around scripted requestor / replier sockets; hand-written scenarios for one-sided states, slow requestors with several replies, racing late repliers, unexpected frame kinds, failing replier sinks, forged / missing / malformed / unknown cid, shutdown, plus seeded random histories; every child call, poll result and waker holder compared with the Lean model (HashMap / StreamMap order taken from the observed run); monitors reconstruct the exchange from the mocks' logs; distinct = distinct case lines, trivial = scenarios without any socket",
         trusted_base=COMMON_TRUST + [
